@@ -133,6 +133,7 @@ def step (s : State) (toks : List String) : State × String :=
         | some b => if b.isEmpty then "-" else
             ",".intercalate (b.map fun (n, m) => s!"{m.ty}/{n.id}@{n.server}/{m.val}"))
     | _, _, _, _ => (s, "bad-op")
+  | ["rereg"] => (s, "ok")   -- an equal copy of the tree is registered again: nothing changes
   | _ => (s, "bad-op")
 
 end Drv
